@@ -84,6 +84,17 @@ def collide(rng, pool, history, targets):
     j = rng.randrange(len(history))
     e, tg = history[j], targets[j]
     k = e[0]
+    if k in ("bban", "bban_props", "bban_checksum", "from_bban") and rng.random() < 0.4:
+        # the same BBAN text under a *different* country of equal BBAN length (objects with equal text, other country)
+        text = e[2] if isinstance(e[2], str) else None
+        if text:
+            same_len = [c for c in pool["countries"] if c != e[1] and pool["components"].get(c)
+                        and len(pool["components"][c][0][3]) == len(text)]
+            if same_len:
+                cc2 = rng.choice(same_len)
+                if k == "from_bban":
+                    return ["from_bban", cc2, text, {"allow_invalid": True}], tg
+                return [rng.choice(["bban", "bban_props"]), cc2, text], tg
     if rng.random() < 0.15 and len(e) > 1 and isinstance(e[1], str):
         # the same *country* through another entry point (country lookups, spec table, pycountry are shared)
         if k.startswith("iban") and len(e[1]) >= 2 and e[1][:2].upper() in pool["bics"]["by_country"]:
